@@ -180,7 +180,10 @@ Definition load_bs (dir : option nat) (rmax order : nat) (odd inv : bool) (listi
           | None => LNone
           | Some (FBad PValue) => LNone
           | Some (FBad e) => LRaise (load_exc e)
-          | Some FShape => LSome {| r_rmax := Nat.div2 rmax; r_order := order; r_odd := odd; r_junk := true |} None
+          | Some FShape =>
+              (* junk of the shape the NAME promises for half its Rmax, cut like a good file *)
+              let j := {| r_rmax := Nat.min rmax (Nat.div2 (fk_rmax k)); r_order := order; r_odd := odd; r_junk := true |} in
+              LSome j (if fk_inv k && inv then Some j else None)
           | Some (FGood f) =>
               (* parity pick, order crop, Rmax crop give the requested basis *)
               let b := {| r_rmax := rmax; r_order := order; r_odd := odd; r_junk := r_junk (f_c f) |} in
